@@ -61,3 +61,11 @@ public:
   const double& leak() const{ std::lock_guard<std::mutex> g(mtx); return cachev; }
 };
 }
+// E.escape: the address of a thread-local object kept in a static shared by all threads
+namespace squids{ namespace fixture{
+  double* shared_view_of_tls(){
+    static thread_local double per_thread[4];
+    static double* const view=per_thread;   // initialised once, by whichever thread comes first
+    return view;
+  }
+}}
